@@ -3,6 +3,8 @@ import MaltModel.Conv.TemplateHyp
 import MaltModel.Conv.SrcClass
 import MaltModel.Proofs.C17Roundtrip
 import MaltModel.Proofs.C17Arity
+import MaltModel.Proofs.C17Mix
+import MaltModel.Proofs.C17PImage
 import MaltModel.Generated.Templates
 /-
 C17 — generated code is a well-formed tree that loads as what `to_code` shows.
@@ -25,12 +27,19 @@ What is proved here (for ALL templates, bindings, trees — by structural induct
                                (`visit_arg` inserts any other bound node without copying it:
                                `C17_template_fresh_counterexample`; at the converters' call sites this happens once, in the
                                factory wrapper, with nodes created for that call — checked on every run).
+* `C17_template_identity`      node identity in full: under `sharedOk` (every node inserted without a copy is inserted at most
+                               once) no label occurs twice and the labels shared with the inputs are exactly the listed ones.
+                               `C17_gen_arg_placeholders_at_most_once`: no extracted template names a keyword at two
+                               parameter positions (occurrence counts extracted by the translator, re-checked in Lean).
 * `C17_bindings_checker_sound` the executable form of the bindings hypothesis evaluated by the driver is sound.
 * `C17_gen_*`                  the statements above instantiated at every template extracted from the converters
                                (`Gen.allTemplates`, regenerated from /repo on every run); all extracted templates are
                                context-well-formed; the unresolved (dynamic) sites are exactly the two known ones.
 * `C17_lists_*`                two `Feature.LISTS` converter steps that use a template where it does not fit (findings
                                C17-lists-store-list-display, C17-lists-append-in-expression).
+* `C17_parser_image_local_preserved`  the node-local part of `parserImage` (no negative/composite numeric Constant, no
+                               keyword as a Name, …) is preserved by `templates.replace`; `C17_template_wellformed_partial`
+                               combines it with the context theorem; `C17_gen_templates_parser_image`.
 * `C17_roundtrip_model`        `read (print t) = some t` for the total reader/printer pair the driver runs.
 Node identity of real Python objects, `ast.unparse`/`ast.parse`, `compile` and the import system are runtime facts:
 they are CHECKED on the real objects by harness/run_c17.py, not proved.
@@ -261,6 +270,35 @@ theorem C17_template_fresh_partial (t : List Stmt) (b : Bindings) (r : List Stmt
     omega
   · simp at h
 
+/-- NODE IDENTITY, full statement for the code that exists: no label occurs twice in the instantiated tree and the only
+labels shared with the inputs are those of the nodes `visit_arg` inserts uncopied — PROVIDED every such node is inserted
+at most once (`sharedOk`: "each placeholder is copied, or used at most once").  `C17_template_fresh_partial` is the
+special case with nothing inserted uncopied; `C17_template_fresh_counterexample` shows the hypothesis is needed. -/
+theorem C17_template_identity (t : List Stmt) (b : Bindings) (r : List Stmt)
+    (hs : sharedOk b t = true) (h : instantiate t b = .ok r) :
+    (labelsSs r).Nodup ∧ (∀ l ∈ labelsSs r, l ∈ bindingLabels b → l ∈ sharedSs b t) := by
+  unfold instantiate at h
+  split at h
+  · rename_i r' n' hi
+    simp only [Except.ok.injEq] at h
+    subst h
+    have hb : ∀ l ∈ bindingLabels b, l < startLabel b := by
+      intro l hl
+      have : l ≤ maxLabel b := mem_le_foldl_max _ 0 l hl
+      unfold startLabel; omega
+    have hm := instSs_mix b (startLabel b) hb t _ _ _ (Nat.le_refl _) hi
+    refine ⟨hm.nodup (of_decide_eq_true hs), ?_⟩
+    intro l hl hmem
+    exact hm.low_mem l hl (hb l hmem)
+  · simp at h
+
+/-- the factory wrapper's shape: `factory_args` bound to freshly built `arg` nodes, the placeholder occurs once: the
+two parameter nodes are shared with the input (labels 1, 2), everything else is fresh, nothing occurs twice -/
+example :
+    let t : List Stmt := [.functionDef 0 "inner" (.arguments 0 [] [.arg 0 "factory_args" []] [] [] [] [] []) [.ret 0 [.name 0 "e" .load]] [] [] false]
+    let b : Bindings := [("factory_args", .nodes [.arg 1 "ag__" [], .arg 2 "x" []])]
+    sharedOk b t = true ∧ argsOkSs b t = false ∧ sharedSs b t = [1, 2] := by decide
+
 /-- the same binding used at three placeholder occurrences (`not var_name` twice and a store): three distinct copies -/
 example :
     let t : List Stmt := [.assign 0 [.name 0 "v" .store] (.boolop 0 true [.name 0 "v" .load, .unary 0 "Not" (.name 0 "v" .load)])]
@@ -291,6 +329,16 @@ theorem C17_gen_templates_ctx_ok : ∀ p ∈ Malt.Gen.allTemplates, ctxOk p.2.1 
 core; their actual template texts are captured at run time by the harness and go through the same correspondence). -/
 theorem C17_gen_unresolved_sites :
     Malt.Gen.unresolvedSites = ["slices_process_single_assignment_0", "slices_process_single_update_0"] := by rfl
+
+/-- Placeholder occurrence counts extracted by the translator agree with the templates, and NO converter template uses a
+keyword at more than one parameter position (the one position where bound nodes are inserted without a copy): a template
+that did would make this fail to compile. -/
+theorem C17_gen_occurrences_agree :
+    Malt.Gen.allOcc.map (fun p => p.2) =
+      Malt.Gen.allTemplates.map (fun p => p.2.2.map fun k => (k, nameOcc k p.2.1, argOcc k p.2.1)) := by decide
+
+theorem C17_gen_arg_placeholders_at_most_once :
+    ∀ p ∈ Malt.Gen.allTemplates, ∀ k ∈ p.2.2, argOcc k p.2.1 ≤ 1 := by decide
 
 theorem C17_gen_template_ctx_partial (p : String × List Stmt × List String) (hp : p ∈ Malt.Gen.allTemplates)
     (b : Bindings) (r : List Stmt) (hb : BindingsWf b) (hu : usesOkSs b p.2.1 = true)
@@ -356,7 +404,49 @@ example : Malt.Conv.SrcClass.appendInExprPosition
   Malt.Conv.SrcClass.hasStoreListDisplay
     (.assign 1 [.seq 2 .list [.name 3 "x" .store] .store] (.seq 4 .list [.name 5 "a" .load] .load)) = true := by decide
 
-/-! ## 6. serialisation -/
+/-! ## 6. trees in the image of the parser
+
+`parserImage` (Conv/ParserImage.lean) is run on every real tree next to `ctxOk` and `arityOk`.  Its node-local part is
+compositional and therefore a theorem of template substitution; the rest is not (see the examples) and stays a per-tree
+check.  FULL statement asked for (false as it stands): `ctxOk ∧ arityOk ∧ parserImage` of template and arguments implies
+the same of the result — arity (a list spliced into `kwonlyargs`), empty blocks (`def f(): body` with `body ↦ []`) and
+empty set displays (`{elts}` with `elts ↦ []`) are NOT preserved by `templates.replace`. -/
+
+/-- no negative / composite numeric `Constant`, no tuple/frozenset `Constant`, no keyword used as a `Name`:
+preserved by `templates.replace` for ALL templates and bindings that satisfy it -/
+theorem C17_parser_image_local_preserved (t : List Stmt) (b : Bindings) (r : List Stmt)
+    (ht : piSs t = true) (hb : bindingsPi b = true) (h : instantiate t b = .ok r) : piSs r = true := by
+  unfold instantiate at h
+  split at h
+  · rename_i r' n' hi
+    simp only [Except.ok.injEq] at h
+    subst h
+    exact instSs_pi b hb t _ _ _ ht hi
+  · simp at h
+
+/-- contexts and parser image together (the two compositional parts of well-formedness) -/
+theorem C17_template_wellformed_partial (t : List Stmt) (b : Bindings) (r : List Stmt)
+    (ht : CtxWellFormed t) (hp : piSs t = true) (hb : BindingsWf b) (hbp : bindingsPi b = true)
+    (hu : usesOkSs b t = true) (h : instantiate t b = .ok r) : CtxWellFormed r ∧ piSs r = true :=
+  ⟨C17_template_ctx_partial t b r ht hb hu h, C17_parser_image_local_preserved t b r hp hbp h⟩
+
+/-- all extracted converter templates are in the parser's image (they are parsed text) -/
+theorem C17_gen_templates_parser_image : ∀ p ∈ Malt.Gen.allTemplates, parserImage p.2.1 = true := by decide
+
+/-- the two seeded trees: `a[Constant(-1)] = 5` and `return Name('None')` are rejected; their parsed forms are accepted -/
+example :
+    parserImage [.assign 1 [.subscript 2 (.name 3 "a" .load) (.const 4 "int" "-1") .store] (.const 5 "int" "5")] = false ∧
+    parserImage [.assign 1 [.subscript 2 (.name 3 "a" .load) (.unary 4 "USub" (.const 5 "int" "1")) .store] (.const 6 "int" "5")] = true ∧
+    parserImage [.ret 1 [.name 2 "None" .load]] = false ∧
+    parserImage [.ret 1 [.const 2 "NoneType" "None"]] = true := by decide
+
+/-- what is NOT compositional: a statement placeholder bound to the empty list empties a block -/
+example :
+    let t : List Stmt := [.functionDef 0 "f" (.arguments 0 [] [] [] [] [] [] []) [.expr 0 (.name 0 "body" .load)] [] [] false]
+    parserImage t = true ∧ bindingsPi [("body", .stmts [])] = true ∧
+    (instantiate t [("body", .stmts [])]).toOption.map parserImage = some false := ⟨by decide, by decide, by rfl⟩
+
+/-! ## 7. serialisation -/
 
 /-- The reader/printer pair the C17 driver runs (`Conv/SexpTotal.lean`, same wire format as the shared, `partial`
 `Py/SexpAst.lean`) round-trips every tree it can represent faithfully (`printableS`: a `Set` display carries `.load`, an
